@@ -2,7 +2,7 @@
 The schedule/liveness clauses of the property and the Rust runtime are not decided."""
 from props import common
 
-FUNCS = ["pce500.emulator:PCE500Emulator.step (delivery gate, halted branch; cpu.execute_instruction cut by its contract)",
+FUNCS = ["pce500.emulator:PCE500Emulator.step (delivery gate, halted branch, end-of-interrupt block after RETI; cpu.execute_instruction cut by its contract)",
          "PCE500Emulator.__init__/load_rom (executed)", "pce500.memory:PCE500Memory.read_byte/write_byte/write_bytes/read_long (executed in context)",
          "sc62015.pysc62015.instr.instructions:IR.lift/RETI.lift (IR/RETI inverse lemma, shared with C05)"]
 
